@@ -79,6 +79,11 @@ HistChecks(ln, e) ==
       msgT == ~Stream(tp)
   IN
   <<
+   \* C02: once the sender has flushed (xcm_finish = 0 after its last send) and closed gracefully, the stream the receiver has
+   \* obtained when it sees the end is the whole accepted stream (gl: accepted bytes that never came; -1: not applicable)
+   Chk(~(isR /\ Stream(tp)) \/ ln.gl <= 0, "C02.lost_at_close", 0, ln.gl),
+   \* C06: ... and that end is reported as the peer's close (0), not as a failure of the connection
+   Chk(~(isR /\ Stream(tp) /\ ln.gl >= 0) \/ ln.ret = 0, "C06.close_as_error", 0, ln.err),
    \* C05: no waiting primitive inside a call on a non-blocking socket
    Chk(ln.w = 0, "C05.wait", 0, ln.w),
    \* C16: one stable descriptor, only ever readable
